@@ -422,6 +422,10 @@ def classify(v):
         _DOTS_APART = re.compile(r'\.\s+\.')
     if v.get('mechanism') == 'law-monotone' and v.get('flag') == 'IGNORE_WHITESPACE':
         want = models.strip_colour(v['case']['want'])
+        flags = v.get('flags') or [0, 0, 0, 0, 0]
+        if not flags[4]:
+            # <BLANKLINE> lines are blanked before whitespace is deleted
+            want = want.replace(models.MARK, '')
         if _DOTS_APART.search(want):
             return 'iw-dot-retokenise'
     return None
